@@ -184,6 +184,10 @@ def _sweep(ctx, p, rng):
     for ax in range(-len(shape), len(shape)):
         _t(ctx, lambda: algopy.sum(x, axis=ax))
     _t(ctx, lambda: x.T); _t(ctx, lambda: algopy.transpose(x)); _t(ctx, lambda: algopy.real(x)); _t(ctx, lambda: algopy.imag(x)); _t(ctx, lambda: algopy.conjugate(x))
+    # a polynomial exponent whose value is an integer, on base values of either sign: numpy.power((-2.), 3.) = -8.
+    xe = mk('nz'); ye = mk('R'); ye.data[0] = np.round(ye.data[0] * 2.0)
+    with np.errstate(all='ignore'):
+        _t(ctx, lambda: xe ** ye)
     n = int(np.prod(shape))
     if n:
         _t(ctx, lambda: algopy.reshape(x, (n,))); _t(ctx, lambda: x.reshape((1, n)))
